@@ -74,6 +74,7 @@ type Step struct {
 
 type Case struct {
 	Retention int64  `json:"retention"`
+	MaxSil    int    `json:"max_silences,omitempty"` // Limits.MaxSilences on BOTH instances (0 = none): a limit on API creates, never on Merge
 	MaxSize   int    `json:"max_size,omitempty"` // Limits.MaxSilenceSizeBytes on BOTH instances (0 = none)
 	Vers      []Ver  `json:"vers"`
 	Steps     []Step `json:"steps"`
@@ -311,8 +312,8 @@ func encode(recs []*pb.MeshSilence) []byte {
 func (r *runner) newInst() *inst {
 	i := &inst{ref: map[string]*pb.MeshSilence{}, timely: map[string]bool{}}
 	opts := silence.Options{Retention: r.ret, Metrics: prometheus.NewRegistry()}
-	if r.c.MaxSize > 0 {
-		opts.Limits = silence.Limits{MaxSilenceSizeBytes: func() int { return r.c.MaxSize }}
+	if r.c.MaxSize > 0 || r.c.MaxSil > 0 {
+		opts.Limits = silence.Limits{MaxSilenceSizeBytes: func() int { return r.c.MaxSize }, MaxSilences: func() int { return r.c.MaxSil }}
 	}
 	s, err := silence.New(opts)
 	if err != nil {
@@ -627,6 +628,9 @@ func (r *runner) exec(k int) {
 			sz = int64(proto.Size(&pb.MeshSilence{Silence: sil, ExpiresAt: timestamppb.New(sil.EndsAt.AsTime().Add(r.ret))}))
 			outTerm = vh.App("RErr", vh.Str("toobig"))
 			r.tags["create/over-the-limit"]++
+		case strings.Contains(err.Error(), "exceeded maximum number of silences"):
+			outTerm = vh.App("RErr", vh.Str("toomany"))
+			r.tags["create/at-max-silences"]++
 		default:
 			outTerm = vh.App("RErr", vh.Str("?"))
 		}
@@ -966,6 +970,48 @@ func limitCases(g *vh.Rand) []Case {
 	return out
 }
 
+// capacityCases: both instances run with Limits.MaxSilences = N. The limit is about creating silences through the
+// API; replication is never limited: an instance AT its limit still takes new ids from gossip and from full-state
+// exchanges (otherwise the cluster never converges), while a local create is refused.
+func capacityCases(g *vh.Rand) []Case {
+	var out []Case
+	for _, n := range []int{1, 2, 3} {
+		for variant := 0; variant < 3; variant++ {
+			c := Case{Retention: int64(time.Hour), MaxSil: n}
+			for j := 0; j < n+2; j++ {
+				c.Vers = append(c.Vers, Ver{ID: fmt.Sprintf("cap-%d", j), Sets: [][]Mat{{{0, "a", fmt.Sprint(j%2 + 1)}}}, Start: epoch - 60_000_000_000,
+					End: epoch + int64(2*time.Hour), Upd: epoch - int64(50-j)*1_000_000_000, Exp: epoch + int64(3*time.Hour), By: "peer", Comment: fmt.Sprintf("cap%d", j)})
+			}
+			a := g.Intn(2)
+			all := make([]int, n+2)
+			for j := range all {
+				all[j] = j
+			}
+			switch variant {
+			case 0: // the receiver fills up by single gossip messages, then more new ids arrive
+				for j := 0; j < n+2; j++ {
+					c.Steps = append(c.Steps, Step{Inst: a, Dt: 1, Kind: "merge", Pool: []int{j}})
+				}
+				c.Steps = append(c.Steps, Step{Inst: 1 - a, Dt: 1, Kind: "merge", Pool: all})
+			case 1: // one batch larger than the limit, then a full-state exchange towards an instance at its limit
+				c.Steps = append(c.Steps, Step{Inst: a, Dt: 1, Kind: "merge", Pool: all[:n]}, Step{Inst: 1 - a, Dt: 1, Kind: "merge", Pool: all[n:]},
+					Step{Dt: 1, Kind: "sync"})
+			default: // local creates up to the limit (the last one refused), then the peer's ids arrive by gossip and push/pull
+				for j := 0; j <= n; j++ {
+					c.Steps = append(c.Steps, Step{Inst: a, Dt: 1_000_000_000, Kind: "create", Hosts: 2 + j})
+				}
+				c.Steps = append(c.Steps, Step{Inst: 1 - a, Dt: 1, Kind: "merge", Pool: all}, Step{Inst: a, Dt: 1, Kind: "merge", Pool: []int{0, 1}}, Step{Dt: 1, Kind: "sync"})
+			}
+			c.Steps = append(c.Steps, Step{Inst: a, Dt: 1_000_000_000, Kind: "create", Hosts: 1}, // at / over the limit: refused
+				Step{Inst: a, Dt: 1, Kind: "expire", ID: "cap-0"},                                 // updates of known ids still work
+				Step{Dt: 1, Kind: "sync"},
+				Step{Inst: 1 - a, Kind: "query", Params: []QP{{Kind: "state", States: []string{"active", "expired"}}}})
+			out = append(out, c)
+		}
+	}
+	return out
+}
+
 // permutations of 0..n-1
 func perms(n int) [][]int {
 	if n == 0 {
@@ -1050,7 +1096,7 @@ func runCase(t *testing.T, c *Case, ext string) (term string, viol []vh.Violatio
 			r.tags["tie-scenario"]++
 		}
 	})
-	cfg := vh.App("mkCfg", vh.Z(c.Retention), "0", vh.Z(int64(c.MaxSize)))
+	cfg := vh.App("mkCfg", vh.Z(c.Retention), vh.Z(int64(c.MaxSil)), vh.Z(int64(c.MaxSize)))
 	return fmt.Sprintf("mkCase2 %s %s [\n  %s] [\n  %s] %s", cfg, ext, strings.Join(r.in[0].hist, ";\n  "), strings.Join(r.in[1].hist, ";\n  "), vh.Bool(same)), r.viol, r.tags, same
 }
 
@@ -1114,6 +1160,10 @@ func TestCheck(t *testing.T) {
 				c := c
 				finish(&c, fmt.Sprintf("all-orders-%d", n))
 			}
+		}
+		for _, c := range capacityCases(g.Fork()) {
+			c := c
+			finish(&c, "max-silences-on-all-members")
 		}
 		for _, c := range limitCases(g.Fork()) {
 			c := c
